@@ -268,3 +268,7 @@ From SV Require Import Engine.Runner Sched.Dfs.
 Definition run_prog_dfs (iters efuel : nat) (ms : max_steps) (max_iter : option nat) (allow_random_data : bool) (objs : store) (bodies : list (list op))
   : list (world * Exec.outcome) * dfs_state * bool :=
   runner_loop dfs_sched ms iters efuel (compile (length objs) bodies) (objs ++ [OJoins []]) (dfs_initial max_iter allow_random_data).
+
+(* the count returned by a run of a program with an iteration budget and a time limit (clock readings as a list) *)
+Definition prog_count_t (expired : list bool) (budget efuel : nat) (objs : store) (bodies : list (list op)) : nat :=
+  run_count_t expired budget efuel (compile (length objs) bodies) (objs ++ [OJoins []]).
